@@ -40,6 +40,7 @@ func NewMotionDetector(args config.ThermalMotion, previewFrames int, camera cptv
 	d.deltaThresh = args.DeltaThresh
 	d.countThresh = args.CountThresh
 	d.tempThresh = args.TempThresh
+	d.tempThreshInit = args.TempThresh
 	d.tempThreshMin = args.TempThreshMin
 	d.tempThreshMax = args.TempThreshMax
 	d.warmerOnly = args.WarmerOnly
@@ -71,6 +72,7 @@ type motionDetector struct {
 	dynamicThresh    bool
 	useOneDiff       bool
 	tempThresh       uint16
+	tempThreshInit   uint16
 	tempThreshMax    uint16
 	tempThreshMin    uint16
 	deltaThresh      uint16
@@ -92,6 +94,9 @@ type motionDetector struct {
 
 func (d *motionDetector) Reset(camera cptvframe.CameraSpec) {
 	d.backgroundFrames = 0
+	// A dynamic threshold computed from frames before the reset must not stay
+	// in force until the background has been rebuilt.
+	d.tempThresh = d.tempThreshInit
 	d.count = 0
 	d.flooredFrames.Reset()
 	d.diffFrames.Reset()
@@ -253,6 +258,9 @@ func (d *motionDetector) updateBackground(new_frame *cptvframe.Frame, prevFFC bo
 	if d.backgroundFrames == 1 {
 		for y := d.start; y < d.rowStop; y++ {
 			copy(d.background.Pix[y][d.start:d.columnStop], new_frame.Pix[y][d.start:d.columnStop])
+			for x := d.start; x < d.columnStop; x++ {
+				d.backgroundWeight[y][x] = 0
+			}
 			for x := 0; x < d.start; x++ {
 				d.background.Pix[y][x] = new_frame.Pix[y][d.start]
 				d.background.Pix[y][d.columnStop+x] = new_frame.Pix[y][d.columnStop-1]
